@@ -749,7 +749,12 @@ func ToEntry(n Node) (e *Entry) {
 			}
 		case "action":
 			for _, r := range fv.Interface().([]*Action) {
-				e.add(r.Name, ToEntry(r))
+				a := ToEntry(r)
+				if a.RPC == nil {
+					// When "action" has no "input" or "output" children
+					a.RPC = &RPCEntry{}
+				}
+				e.add(r.Name, a)
 			}
 		case "augment":
 			for _, a := range fv.Interface().([]*Augment) {
